@@ -5,6 +5,8 @@ use std::{
     sync::Arc,
 };
 
+use indexmap::IndexSet;
+
 use crate::common::Identifier;
 
 pub(crate) trait MapView: fmt::Debug {
@@ -190,15 +192,15 @@ impl<V: fmt::Debug + Clone, T: MapView<Value = V> + Clone> MapView for PrefixedM
 #[derive(Debug, Clone)]
 pub(crate) struct LimitedMapView<V: fmt::Debug + Clone, T: MapView<Value = V> + Clone>(
     pub T,
-    pub HashSet<Identifier>,
+    pub IndexSet<Identifier>,
 );
 
 impl<V: fmt::Debug + Clone, T: MapView<Value = V> + Clone> LimitedMapView<V, T> {
     pub fn safelist(map: T, keys: &HashSet<Identifier>) -> Self {
-        let keys = keys
-            .iter()
-            .copied()
-            .filter(|key| map.contains_key(*key))
+        let keys = map
+            .keys()
+            .into_iter()
+            .filter(|key| keys.contains(key))
             .collect();
 
         Self(map, keys)
@@ -253,15 +255,16 @@ impl<V: fmt::Debug + Clone, T: MapView<Value = V> + Clone> MapView for LimitedMa
 #[derive(Debug)]
 pub(crate) struct MergedMapView<V: fmt::Debug + Clone>(
     pub Vec<Arc<dyn MapView<Value = V>>>,
-    HashSet<Identifier>,
+    IndexSet<Identifier>,
 );
 
 impl<V: fmt::Debug + Clone> MergedMapView<V> {
     pub fn new(maps: Vec<Arc<dyn MapView<Value = V>>>) -> Self {
-        let unique_keys: HashSet<Identifier> = maps.iter().fold(HashSet::new(), |mut keys, map| {
-            keys.extend(&map.keys());
-            keys
-        });
+        let unique_keys: IndexSet<Identifier> =
+            maps.iter().fold(IndexSet::new(), |mut keys, map| {
+                keys.extend(map.keys());
+                keys
+            });
 
         Self(maps, unique_keys)
     }
